@@ -6,11 +6,6 @@ import CelerVerif.Lemmas.Ledger
 namespace CelerVerif.Ledger
 open CelerVerif
 
-/-- the along-step (ElossApplier) part of a step, as `stepLedger` evaluates it -/
-noncomputable def alongOut (e : ℝ) (inp : StepIn ℝ) : ElossOut ℝ :=
-  elossApplier (match inp.eloss with | .none => false | _ => inp.applicable)
-    inp.psaBoundary inp.hasAtRest e 0 (calcOf e inp)
-
 /-- hypotheses on the inputs of one step: non-negative pre-step energy, the C14 contract of the
     mean loss (`0 ≤ mean ≤ E`), a non-negative sampled loss, and the C04 contract of the
     interaction result relative to the energy the track has after the along-step -/
@@ -21,7 +16,7 @@ def StepOK (P : Particles ℝ) (pid : Nat) (e : ℝ) (inp : StepIn ℝ) : Prop :
    | .mean m => 0 ≤ m ∧ m ≤ e
    | .fluct m s => 0 ≤ m ∧ m ≤ e ∧ 0 ≤ s) ∧
   (match inp.post with
-   | .interact r => InteractorOK P pid (alongOut e inp).e r
+   | .interact r => InteractorOK P pid (alongStep e inp).e r
    | _ => True)
 
 theorem calcOf_bounds (e : ℝ) (inp : StepIn ℝ) (he : 0 ≤ e)
@@ -33,13 +28,167 @@ theorem calcOf_bounds (e : ℝ) (inp : StepIn ℝ) (he : 0 ≤ e)
   intro c
   unfold calcOf
   cases hk : inp.eloss with
-  | none => simp only [NumR.lit0]; exact ⟨le_refl _, he⟩
+  | none =>
+    show 0 ≤ (@OfNat.ofNat ℝ 0 (Num.instOfNat 0)) ∧ (@OfNat.ofNat ℝ 0 (Num.instOfNat 0)) ≤ e
+    rw [NumR.lit0]; exact ⟨le_refl _, he⟩
   | mean m => rw [hk] at h; exact meanELoss_bounds e inp.low m c h.1 h.2
   | fluct m s => rw [hk] at h; exact fluctELoss_bounds e inp.low m s c h.1 h.2.1 h.2.2
+
+theorem alongStep_sum (e : ℝ) (inp : StepIn ℝ) (he : 0 ≤ e)
+    (h : match inp.eloss with
+      | .none => True
+      | .mean m => 0 ≤ m ∧ m ≤ e
+      | .fluct m s => 0 ≤ m ∧ m ≤ e ∧ 0 ≤ s) :
+    (alongStep e inp).e + (alongStep e inp).dep = e ∧ 0 ≤ (alongStep e inp).e
+      ∧ (alongStep e inp).e ≤ e ∧ 0 ≤ (alongStep e inp).dep := by
+  have := elossApplier_sum (elossOn inp) inp.psaBoundary inp.hasAtRest e 0 (calcOf e inp)
+    (calcOf_bounds e inp he h) he
+  unfold alongStep
+  rw [NumR.lit0]
+  refine ⟨by linarith [this.1], this.2.1, this.2.2.1, this.2.2.2⟩
 
 /-- 2mc² term of a step record -/
 noncomputable def relT (P : Particles ℝ) (pid : Nat) (r : StepRec ℝ) : ℝ :=
   if r.released then rest2 P pid else 0
+
+/-- flags of a step record are consistent with its fate -/
+theorem postStep_flags (P : Particles ℝ) (pid : Nat) (inp : StepIn ℝ) (a : ElossOut ℝ) :
+    ((postStep P pid inp a).fate = .alive →
+        (postStep P pid inp a).released = false ∧ (postStep P pid inp a).rangeKilled = false)
+    ∧ ((postStep P pid inp a).fate = .escaped →
+        (postStep P pid inp a).released = false ∧ (postStep P pid inp a).rangeKilled = false)
+    ∧ ((postStep P pid inp a).fate = .killed →
+        ((postStep P pid inp a).rangeKilled = true ∧ (postStep P pid inp a).released = false)
+        ∨ ((postStep P pid inp a).rangeKilled = false ∧ (postStep P pid inp a).released = true)) := by
+  unfold postStep
+  cases a.stop <;> simp only [] <;> try (simp; done)
+  all_goals
+    cases inp.post with
+    | none => simp
+    | boundary ex => cases ex <;> simp
+    | trackingCut => simp
+    | interact r => cases (applyInteraction P inp.postCut a.e a.dep r).killed <;> simp
+
+/-- the post action on the state left by the along-step -/
+theorem postStep_balance (P : Particles ℝ) (pid : Nat) (inp : StepIn ℝ) (a : ElossOut ℝ)
+    (ha : 0 ≤ a.e) (hs : a.stop = .killedRange → a.e = 0)
+    (hp : match inp.post with
+      | .interact r => InteractorOK P pid a.e r
+      | _ => True) :
+    a.e + a.dep + relT P pid (postStep P pid inp a)
+        = (postStep P pid inp a).e1 + (postStep P pid inp a).dep
+          + sumT P (postStep P pid inp a).secs
+      ∧ 0 ≤ (postStep P pid inp a).e1
+      ∧ ((postStep P pid inp a).fate = .killed → (postStep P pid inp a).e1 = 0) := by
+  have key : ∀ (_ : a.stop ≠ .killedRange),
+      a.e + a.dep + relT P pid (match inp.post with
+          | .none => (⟨a.e, a.dep, [], .alive, false, false⟩ : StepRec ℝ)
+          | .boundary exits => ⟨a.e, a.dep, [], if exits then .escaped else .alive, false, false⟩
+          | .trackingCut =>
+            ⟨(trackingCut P pid a.e a.dep).1, (trackingCut P pid a.e a.dep).2, [], .killed, true, false⟩
+          | .interact r =>
+            ⟨(applyInteraction P inp.postCut a.e a.dep r).e, (applyInteraction P inp.postCut a.e a.dep r).dep,
+              keepSecs (applyInteraction P inp.postCut a.e a.dep r).secs,
+              if (applyInteraction P inp.postCut a.e a.dep r).killed then .killed else .alive,
+              (applyInteraction P inp.postCut a.e a.dep r).killed, false⟩)
+        = (match inp.post with
+          | .none => (⟨a.e, a.dep, [], .alive, false, false⟩ : StepRec ℝ)
+          | .boundary exits => ⟨a.e, a.dep, [], if exits then .escaped else .alive, false, false⟩
+          | .trackingCut =>
+            ⟨(trackingCut P pid a.e a.dep).1, (trackingCut P pid a.e a.dep).2, [], .killed, true, false⟩
+          | .interact r =>
+            ⟨(applyInteraction P inp.postCut a.e a.dep r).e, (applyInteraction P inp.postCut a.e a.dep r).dep,
+              keepSecs (applyInteraction P inp.postCut a.e a.dep r).secs,
+              if (applyInteraction P inp.postCut a.e a.dep r).killed then .killed else .alive,
+              (applyInteraction P inp.postCut a.e a.dep r).killed, false⟩).e1
+          + (match inp.post with
+          | .none => (⟨a.e, a.dep, [], .alive, false, false⟩ : StepRec ℝ)
+          | .boundary exits => ⟨a.e, a.dep, [], if exits then .escaped else .alive, false, false⟩
+          | .trackingCut =>
+            ⟨(trackingCut P pid a.e a.dep).1, (trackingCut P pid a.e a.dep).2, [], .killed, true, false⟩
+          | .interact r =>
+            ⟨(applyInteraction P inp.postCut a.e a.dep r).e, (applyInteraction P inp.postCut a.e a.dep r).dep,
+              keepSecs (applyInteraction P inp.postCut a.e a.dep r).secs,
+              if (applyInteraction P inp.postCut a.e a.dep r).killed then .killed else .alive,
+              (applyInteraction P inp.postCut a.e a.dep r).killed, false⟩).dep
+          + sumT P (match inp.post with
+          | .none => (⟨a.e, a.dep, [], .alive, false, false⟩ : StepRec ℝ)
+          | .boundary exits => ⟨a.e, a.dep, [], if exits then .escaped else .alive, false, false⟩
+          | .trackingCut =>
+            ⟨(trackingCut P pid a.e a.dep).1, (trackingCut P pid a.e a.dep).2, [], .killed, true, false⟩
+          | .interact r =>
+            ⟨(applyInteraction P inp.postCut a.e a.dep r).e, (applyInteraction P inp.postCut a.e a.dep r).dep,
+              keepSecs (applyInteraction P inp.postCut a.e a.dep r).secs,
+              if (applyInteraction P inp.postCut a.e a.dep r).killed then .killed else .alive,
+              (applyInteraction P inp.postCut a.e a.dep r).killed, false⟩).secs
+        ∧ 0 ≤ (match inp.post with
+          | .none => (⟨a.e, a.dep, [], .alive, false, false⟩ : StepRec ℝ)
+          | .boundary exits => ⟨a.e, a.dep, [], if exits then .escaped else .alive, false, false⟩
+          | .trackingCut =>
+            ⟨(trackingCut P pid a.e a.dep).1, (trackingCut P pid a.e a.dep).2, [], .killed, true, false⟩
+          | .interact r =>
+            ⟨(applyInteraction P inp.postCut a.e a.dep r).e, (applyInteraction P inp.postCut a.e a.dep r).dep,
+              keepSecs (applyInteraction P inp.postCut a.e a.dep r).secs,
+              if (applyInteraction P inp.postCut a.e a.dep r).killed then .killed else .alive,
+              (applyInteraction P inp.postCut a.e a.dep r).killed, false⟩).e1
+        ∧ ((match inp.post with
+          | .none => (⟨a.e, a.dep, [], .alive, false, false⟩ : StepRec ℝ)
+          | .boundary exits => ⟨a.e, a.dep, [], if exits then .escaped else .alive, false, false⟩
+          | .trackingCut =>
+            ⟨(trackingCut P pid a.e a.dep).1, (trackingCut P pid a.e a.dep).2, [], .killed, true, false⟩
+          | .interact r =>
+            ⟨(applyInteraction P inp.postCut a.e a.dep r).e, (applyInteraction P inp.postCut a.e a.dep r).dep,
+              keepSecs (applyInteraction P inp.postCut a.e a.dep r).secs,
+              if (applyInteraction P inp.postCut a.e a.dep r).killed then .killed else .alive,
+              (applyInteraction P inp.postCut a.e a.dep r).killed, false⟩).fate = .killed →
+          (match inp.post with
+          | .none => (⟨a.e, a.dep, [], .alive, false, false⟩ : StepRec ℝ)
+          | .boundary exits => ⟨a.e, a.dep, [], if exits then .escaped else .alive, false, false⟩
+          | .trackingCut =>
+            ⟨(trackingCut P pid a.e a.dep).1, (trackingCut P pid a.e a.dep).2, [], .killed, true, false⟩
+          | .interact r =>
+            ⟨(applyInteraction P inp.postCut a.e a.dep r).e, (applyInteraction P inp.postCut a.e a.dep r).dep,
+              keepSecs (applyInteraction P inp.postCut a.e a.dep r).secs,
+              if (applyInteraction P inp.postCut a.e a.dep r).killed then .killed else .alive,
+              (applyInteraction P inp.postCut a.e a.dep r).killed, false⟩).e1 = 0) := by
+    intro _
+    unfold relT
+    cases hpost : inp.post with
+    | none => simp
+    | boundary ex => cases ex <;> simp
+    | trackingCut =>
+      have ht := trackingCut_sum P pid a.e a.dep
+      simp only [if_true, sumT_nil]
+      refine ⟨by linarith [ht.1, ht.2], by rw [ht.1], fun _ => ht.1⟩
+    | interact r =>
+      rw [hpost] at hp
+      simp only [] at hp
+      have hi := applyInteraction_balance P inp.postCut pid a.e a.dep r hp
+      simp only []
+      refine ⟨?_, ?_, ?_⟩
+      · unfold sumTo at hi
+        linarith
+      · unfold applyInteraction InteractorOK at *
+        cases hact : r.action <;> simp only [hact] at hp ⊢
+        · cases inp.postCut <;> simp <;> exact hp.2
+        · cases inp.postCut <;> simp <;> rw [hp.2]
+        · exact ha
+        · exact ha
+      · intro hk
+        unfold applyInteraction InteractorOK at *
+        cases hact : r.action <;> simp only [hact] at hp hk ⊢
+        · cases hpc : inp.postCut <;> simp [hpc] at hk
+        · cases inp.postCut <;> simp <;> exact hp.2
+        · simp at hk
+        · simp at hk
+  unfold postStep
+  cases hstop : a.stop with
+  | killedRange =>
+    simp only [relT]
+    have := hs hstop
+    refine ⟨by simp, ha, fun _ => this⟩
+  | none => exact key (by rw [hstop]; decide)
+  | forcedDiscrete => exact key (by rw [hstop]; decide)
 
 /-- ★ one step: kinetic energy before (+ the track's own 2mc² when the step accounts for it)
     = kinetic energy after + deposition + total energy of the emitted secondaries -/
@@ -51,90 +200,13 @@ theorem stepLedger_balance (P : Particles ℝ) (pid : Nat) (e : ℝ) (inp : Step
       ∧ 0 ≤ (stepLedger P pid e inp).e1
       ∧ ((stepLedger P pid e inp).fate = .killed → (stepLedger P pid e inp).e1 = 0) := by
   obtain ⟨he, hl, hp⟩ := h
-  have hb := calcOf_bounds e inp he hl
-  have ha := elossApplier_sum (match inp.eloss with | .none => false | _ => inp.applicable)
-    inp.psaBoundary inp.hasAtRest e 0 (calcOf e inp) hb he
-  have hs := elossApplier_stop (match inp.eloss with | .none => false | _ => inp.applicable)
-    inp.psaBoundary inp.hasAtRest e 0 (calcOf e inp)
-  unfold alongOut at hp
-  unfold stepLedger relT
-  simp only [NumR.lit0] at ha hs hp ⊢
-  generalize elossApplier (match inp.eloss with | .none => false | _ => inp.applicable)
-    inp.psaBoundary inp.hasAtRest e 0 (calcOf e inp) = a at ha hs hp ⊢
-  obtain ⟨ha1, ha2, ha3, ha4⟩ := ha
-  cases hstop : a.stop with
-  | killedRange =>
-    simp only []
-    have := hs hstop
-    refine ⟨by simp; linarith, by linarith, fun _ => this⟩
-  | none =>
-    simp only []
-    cases hpost : inp.post with
-    | none => simp only []; refine ⟨by simp; linarith, ha2, by simp⟩
-    | boundary ex =>
-      simp only []
-      refine ⟨by simp; linarith, ha2, ?_⟩
-      cases ex <;> simp
-    | trackingCut =>
-      simp only []
-      have ht := trackingCut_sum P pid a.e a.dep
-      refine ⟨by simp; linarith [ht.1, ht.2], by rw [ht.1], fun _ => ht.1⟩
-    | interact r =>
-      simp only []
-      rw [hpost] at hp
-      simp only [] at hp
-      have hi := applyInteraction_balance P inp.postCut pid a.e a.dep r hp
-      refine ⟨?_, ?_, ?_⟩
-      · show e + (if (applyInteraction P inp.postCut a.e a.dep r).killed = true then rest2 P pid else 0) = _
-        unfold sumTo at hi
-        linarith
-      · unfold applyInteraction InteractorOK at *
-        cases hact : r.action <;> simp only [hact] at hp ⊢
-        · cases inp.postCut <;> simp <;> exact hp.2
-        · cases inp.postCut <;> simp <;> rw [hp.2]
-        · exact ha2
-        · exact ha2
-      · intro hk
-        unfold applyInteraction InteractorOK at *
-        cases hact : r.action <;> simp only [hact] at hp hk ⊢
-        · cases hpc : inp.postCut <;> simp [hpc] at hk
-        · cases inp.postCut <;> simp <;> exact hp.2
-        · simp at hk
-        · simp at hk
-  | forcedDiscrete =>
-    simp only []
-    cases hpost : inp.post with
-    | none => simp only []; refine ⟨by simp; linarith, ha2, by simp⟩
-    | boundary ex =>
-      simp only []
-      refine ⟨by simp; linarith, ha2, ?_⟩
-      cases ex <;> simp
-    | trackingCut =>
-      simp only []
-      have ht := trackingCut_sum P pid a.e a.dep
-      refine ⟨by simp; linarith [ht.1, ht.2], by rw [ht.1], fun _ => ht.1⟩
-    | interact r =>
-      simp only []
-      rw [hpost] at hp
-      simp only [] at hp
-      have hi := applyInteraction_balance P inp.postCut pid a.e a.dep r hp
-      refine ⟨?_, ?_, ?_⟩
-      · show e + (if (applyInteraction P inp.postCut a.e a.dep r).killed = true then rest2 P pid else 0) = _
-        unfold sumTo at hi
-        linarith
-      · unfold applyInteraction InteractorOK at *
-        cases hact : r.action <;> simp only [hact] at hp ⊢
-        · cases inp.postCut <;> simp <;> exact hp.2
-        · cases inp.postCut <;> simp <;> rw [hp.2]
-        · exact ha2
-        · exact ha2
-      · intro hk
-        unfold applyInteraction InteractorOK at *
-        cases hact : r.action <;> simp only [hact] at hp hk ⊢
-        · cases hpc : inp.postCut <;> simp [hpc] at hk
-        · cases inp.postCut <;> simp <;> exact hp.2
-        · simp at hk
-        · simp at hk
+  have ha := alongStep_sum e inp he hl
+  have hs : (alongStep e inp).stop = .killedRange → (alongStep e inp).e = 0 := by
+    unfold alongStep
+    exact elossApplier_stop _ _ _ _ _ _
+  have := postStep_balance P pid inp (alongStep e inp) ha.2.1 hs hp
+  unfold stepLedger
+  refine ⟨by linarith [this.1, ha.1], this.2.1, this.2.2⟩
 
 /-! ### a track -/
 
@@ -227,22 +299,16 @@ theorem eventStep_invariant (P : Particles ℝ) (live : List (Tk ℝ)) (tot : To
     | alive =>
       simp only [sumT_cons, sumT_append, secT, Totals.sum]
       -- an alive track never has its 2mc² released (tracking cut / absorption kill it)
-      have hrel : (stepLedger P t.pid t.e inp).released = false := by
-        have hf' := hf
-        unfold stepLedger at hf' ⊢
-        split at hf' <;> (try split at hf') <;> simp_all
-        all_goals (split_ifs at hf' <;> simp_all)
+      have hrel : (stepLedger P t.pid t.e inp).released = false :=
+        ((postStep_flags P t.pid inp (alongStep t.e inp)).1 hf).1
       rw [hrel] at hb
       simp only [Bool.false_eq_true, if_false] at hb
       simp only [NumR.hadd_real]
       unfold secT at he
       linarith
     | escaped =>
-      have hrel : (stepLedger P t.pid t.e inp).released = false := by
-        have hf' := hf
-        unfold stepLedger at hf' ⊢
-        split at hf' <;> (try split at hf') <;> simp_all
-        all_goals (split_ifs at hf' <;> simp_all)
+      have hrel : (stepLedger P t.pid t.e inp).released = false :=
+        ((postStep_flags P t.pid inp (alongStep t.e inp)).2.1 hf).1
       rw [hrel] at hb
       simp only [Bool.false_eq_true, if_false] at hb
       simp only [sumT_append, Totals.sum, NumR.hadd_real]
@@ -255,11 +321,8 @@ theorem eventStep_invariant (P : Particles ℝ) (live : List (Tk ℝ)) (tot : To
       have hcase : ((stepLedger P t.pid t.e inp).rangeKilled = true
             ∧ (stepLedger P t.pid t.e inp).released = false)
           ∨ ((stepLedger P t.pid t.e inp).rangeKilled = false
-            ∧ (stepLedger P t.pid t.e inp).released = true) := by
-        have hf' := hf
-        unfold stepLedger at hf' ⊢
-        split at hf' <;> (try split at hf') <;> simp_all
-        all_goals (split_ifs at hf' <;> simp_all)
+            ∧ (stepLedger P t.pid t.e inp).released = true) :=
+        (postStep_flags P t.pid inp (alongStep t.e inp)).2.2 hf
       unfold secT at he
       rcases hcase with ⟨h1, h2⟩ | ⟨h1, h2⟩
       · rw [h2] at hb
